@@ -453,6 +453,16 @@ def isolated(node: ast.AST) -> Tuple[bool, str]:
                     reraises = [r for s in h.body for r in C.walk_shallow(s) if isinstance(r, ast.Raise)]
                     if reraises:
                         return False, f"handler at line {h.lineno} re-raises: one failing job/handler aborts the dispatch"
+                    # the guard itself must not be able to fail: what it does with the user-supplied callable (the thing that was called in
+                    # the try body) is pass it on as a value -- reading attributes of it (__qualname__, __name__) raises for partials / objects
+                    called = {c.func.id for c in ast.walk(node) if isinstance(c, ast.Call) and isinstance(c.func, ast.Name)} | \
+                             ({node.func.id} if isinstance(node, ast.Call) and isinstance(node.func, ast.Name) else set())
+                    risky = [x for s in h.body for x in ast.walk(s) if isinstance(x, ast.Attribute) and isinstance(x.value, ast.Name)
+                             and x.value.id in called and isinstance(x.ctx, ast.Load)]
+                    if risky:
+                        return False, (f"the isolating handler at line {h.lineno} reads '{ast.unparse(risky[0])}' of the user-supplied callable: for a "
+                                       "functools.partial or a callable object that raises AttributeError inside the guard, so the failure escapes, "
+                                       "the error is not logged and stop-on-error is skipped")
                     return True, "inside try/except Exception without re-raise"
         cur = anc
     return False, "not inside a try/except Exception: an exception escapes into the dispatcher"
@@ -534,7 +544,37 @@ def rule_time_passthrough(ctx: Ctx, rule: str = "C13.4") -> None:
                   "runs before its scheduled time", key_text=f"time passthrough {fn.name}")
 
 
+def rule_pushed_is_popped(ctx: Ctx, qualname: str, rule: str) -> None:
+    """The job that is started is the job that was removed from the queue, and it is removed in the same synchronous step in which the
+    head was found due: `when, job = queue.pop()` feeds `_execute_scheduled(when, job)`, with no suspension point between the due test
+    and the pop (otherwise a job scheduled meanwhile becomes the head: it is popped and lost, the other one runs twice)."""
+    fn = ctx.func(qualname)
+    g = ctx.cfg(fn)
+    execs = [c for c in A.func_calls(fn, shallow=False) if (A.call_name(c) or "") == "self._execute_scheduled"]
+    pops = [c for c in A.func_calls(fn, shallow=False) if (A.call_name(c) or "").endswith("_scheduler_queue.pop")]
+    ctx.floor(rule, f"_execute_scheduled sites in {fn.name}", len(execs), 1)
+    for c in execs:
+        srcs = []
+        for a in c.args[1:2]:       # the job (the time may also be known from the peek: it is the same value)
+            if isinstance(a, ast.Name):
+                for s_ in A.stores(fn):
+                    if isinstance(s_.target, ast.Name) and s_.target.id == a.id and hasattr(s_.node, "value"):
+                        srcs.append(s_.node.value)
+        okv = bool(srcs) and all(isinstance(v, ast.Call) and (A.call_name(v) or "").endswith("_scheduler_queue.pop") for v in srcs)
+        ctx.check(okv, rule, f"{fn.name}: the job started is the one popped from the queue", fn, c, "when, job = queue.pop()",
+                  f"the job handed to _execute_scheduled comes from {[ast.unparse(v)[:40] for v in srcs] or 'an unrecognised source'}, not from the pop: "
+                  "the job started and the job removed from the queue can differ (one is lost, one runs twice)", key_text=f"pushed is popped {fn.name}")
+        for p_ in pops:
+            pn, en = g.nodes_for(p_)[0], g.nodes_for(c)[0]
+            before = en in g.reach([pn], include_sources=False, labels=C.NO_EXC) and pn not in g.reach([en], stop=lambda n: n.kind == "test" and False, labels=C.NO_EXC) or \
+                g.path_avoiding(g.entry, lambda n, en=en: n is en, lambda n, pn=pn: n is pn, C.NO_EXC) is None
+            ctx.check(before, rule, f"{fn.name}: the job leaves the queue before it is handed to the pool", fn, p_, "pop dominates the push",
+                      "the job is started (and the pool awaited) before it is removed from the queue: a job scheduled during that suspension is "
+                      "removed in its place", key_text=f"pop before push {fn.name}")
+
+
 def run(ctx: Ctx) -> None:
+    rule_pushed_is_popped(ctx, f"{DISP}.BacktestingDispatcher._dispatch_scheduled", "C13.3")
     rule_time_passthrough(ctx)
     heaps = rule_heap_discipline(ctx)
     rule_final_drain(ctx, heaps)
